@@ -873,6 +873,7 @@ def run(ctx):
             from .. import extra_oracles2
             extra_oracles2.vine_likelihood_border(ctx)
             extra_oracles2.vine_api(ctx, ('short-table',))
+            extra_oracles2.vine_copy_likelihood(ctx)
         except Exception as ex:       # the oracle itself must never hide the result of the check proper
             ctx.obligation('oracle:extra:raised', False, 'correspondence', repr(ex))
             ctx.violation('oracle:extra:raised:' + type(ex).__name__, 'history oracle raised ' + repr(ex), {'repro': '# see tools/vf/extra_oracles.py'})
